@@ -430,7 +430,11 @@ pub fn random_cfg(rng: &mut StdRng, flavours: &[&str], policies: &[&str]) -> Cfg
     let policy = pick(rng, policies).to_string();
     let flavour = pick(rng, flavours).to_string();
     let limit = *pick(rng, &[0usize, 1, 2, 3, 4, 6]);
-    let ttl = *pick(rng, &[0u64, 0, 1, 2, 3]);
+    let ttl = if policy == "tlru" {
+        *pick(rng, &[0u64, 2, 3, 3, 4])
+    } else {
+        *pick(rng, &[0u64, 0, 1, 2, 3])
+    };
     let mut maxmem = *pick(rng, &[0usize, 0, 4, 7, 10]);
     if limit == 0 && maxmem == 0 && rng.gen_bool(0.7) {
         maxmem = 7;
